@@ -483,7 +483,83 @@ def rowrange(ctx):
     ctx.floor("ROWRANGE", "row slices of the raw connector's feature tables", n, 6)
 
 
+def pruneset(ctx):
+    """PRUNESET (C07, C16): DualConnector::create_raw_connector prunes the scorer's trie to the
+    feature ids that the raw part can still ask for. The sets used in that pruning must contain
+    every element of the returned tables - including the BOS/EOS row written by the initial
+    fill (feature id 0). A set that misses id 0 wipes every cost line with an empty feature."""
+    crate = ctx.facts("A").lib
+    E = Effects(crate)
+    p = "vibrato::dictionary::connector::dual_connector::DualConnector::create_raw_connector"
+    f = crate.fns.get(p)
+    if f is None or not f.body:
+        raise EngineError("PRUNESET: anchor lost: %s" % p)
+    fa = E.fa(p)
+    S = Sym(E, fa)
+    # the returned tables: origins of the result tuple's operands
+    returned = set()
+    for b, i, s in fa.stmts():
+        if "lhs" in s and s["lhs"]["l"] == 0 and s["rv"]["k"] == "agg":
+            for o in s["rv"]["ops"]:
+                oo = fa.origin(o)
+                if oo[0] == "call":
+                    returned.add(oo[1])
+    fills = {b: t for b, t in calls_named(fa, "from_elem") if b in returned}
+    if len(fills) != 2:
+        raise EngineError("PRUNESET: the two returned feature tables were not recognised")
+    cons = [(b, t) for b, t in calls_named(fa, "contains")]
+    ctx.floor("PRUNESET", "membership tests in create_raw_connector", len(cons), 2)
+    k = 0
+    for b, t in cons:
+        e = S.operand(t["args"][0])
+        ok, why = False, "set built in an unrecognised way (%s)" % show(e)[:60]
+        if e[0] == "call" and short(e[1]) == "collect":
+            # collect(<iterator chain over table>)
+            src = e[2][0] if e[2] else None
+            root = None
+            cur = t["args"][0]
+            o = fa.origin(cur)
+            # follow the iterator chain of the collect call back to a table
+            if o[0] == "call":
+                c2 = o[2]["args"][0] if o[2]["args"] else None
+                for _ in range(8):
+                    if c2 is None:
+                        break
+                    oo = fa.origin(c2)
+                    if oo[0] != "call":
+                        break
+                    if oo[1] in fills:
+                        root = oo[1]
+                        break
+                    nm = short(strip_generics(sorted(callee_paths(oo[2]))[0]))
+                    if nm not in ("iter", "cloned", "copied", "deref", "into_iter", "as_slice"):
+                        break
+                    c2 = oo[2]["args"][0] if oo[2]["args"] else None
+            ok = root is not None
+            why = "all elements of a returned table (initial BOS/EOS row included)" if ok else \
+                "collected from something other than a returned table"
+        elif e[0] == "call" and short(e[1]) in ("new", "default", "with_capacity"):
+            # built by inserts: the fill value of the tables must be inserted too
+            o = fa.origin(t["args"][0])
+            ins = []
+            for ib, it in calls_named(fa, "insert"):
+                oo = fa.origin(it["args"][0])
+                if oo[0] == "call" and o[0] == "call" and oo[1] == o[1]:
+                    ins.append(show(S.operand(it["args"][1])))
+            fillv = {show(S.operand(ft["args"][0])) for ft in fills.values()}
+            ok = bool(fillv & set(ins))
+            why = "built by insert() including the tables' fill value" if ok else \
+                "built by insert() of the copied ids only (%s): the rows created by the initial " \
+                "fill (%s, the BOS/EOS row) are missing" % (sorted(set(ins))[:2], sorted(fillv))
+        ctx.ob("PRUNESET", "%s|contains|%d" % (p, k), ok, fa.loc(b),
+               "the pruning set holds %s" % why if ok else
+               "the set tested while pruning the scorer is %s: cost lines with an empty "
+               "(BOS/EOS) feature are removed from the dual connector's raw part" % why)
+        k += 1
+
+
 def run(ctx):
+    pruneset(ctx)
     rowrange(ctx)
     scorer_build(ctx)
     portable(ctx)
